@@ -39,11 +39,12 @@ structure Shape (s : State) : Prop where
   active : s.active = inCbN s.bpc
   quitStop : s.bpc.quit = true → s.stop = true
   joinedExited : s.joined = true → s.bpc = .exited
+  sinkOwner : ∀ o, s.owner = some o → o.tid = sinkTid → s.bpc.isInCb = true
 
 theorem step_shape (s : State) (st : Step) (hv : valid s st = true) (h : Shape s) : Shape (step s st) := by
-  obtain ⟨h1, h2, h3, h4⟩ := h
+  obtain ⟨h1, h2, h3, h4, h5⟩ := h
   cases st <;> simp only [step, valid] at * <;> (repeat' split) <;>
-    (constructor <;> simp_all [inCbN, BPc.quit])
+    (constructor <;> simp_all [inCbN, BPc.quit, BPc.isInCb] <;> try grind)
 
 /-! ### buffer accounting -/
 
@@ -278,7 +279,7 @@ theorem Cfg.ok_iff (c : Cfg) : c.ok = true ↔ 1 ≤ c.size ∧ 1 ≤ c.minN ∧
 theorem init_inv (cfg : Cfg) (prog) (h : cfg.ok = true) : Inv prog (init cfg prog) := by
   have hc := (Cfg.ok_iff cfg).mp h
   refine ⟨h, ?_, ?_, ?_, ?_, ?_, ?_⟩
-  · constructor <;> simp [init, inCbN, BPc.quit]
+  · constructor <;> simp [init, inCbN, BPc.quit, BPc.isInCb]
   · constructor <;> simp [init, inflight, currCount, hc.2.2.1]
   · simp [StreamInv, init, written, appended, currOf, remainOf]
   · constructor <;> simp [init]
